@@ -24,7 +24,9 @@ PROPERTY = "C51"
 LEVEL = "exploration"
 RULE = (
     "one case = one seeded (DAG history with merges, stop/onto/start choice, skip_full_merged, revid generator, "
-    "transpose replacement, fault kind and store-op position inside write_plan+rebase); non-trivial = the simple plan "
+    "transpose replacement, fault kind and store-op position inside write_plan+rebase) together with its enumeration of "
+    "crash-before / crash-after / error / torn points over the storage ops of RebaseState1.write_plan and remove_plan "
+    "(every op on the plan file, a seeded sample of the lock/format ops in the quick tier, all in thorough); non-trivial = the simple plan "
     "rewrites at least two revisions or a merge, and - when a fault is planned - it fired before the rebase finished "
     "and the rebase was resumed from the stored plan; distinct = distinct event-log digests of such runs"
 )
@@ -40,7 +42,9 @@ ASSUMPTIONS = [
     "a new parent may be an unchanged old revision only if that revision is outside the rewritten domain as defined above (references to ignored revisions are preserved)",
     "CommitBuilderRevisionRewriter (map_ids=True, its only working mode: with map_ids=False wrap_iter_changes calls new_id on a plain tree) requires equal old/new parent counts; when the uninterrupted replay itself refuses the history (parent-count mismatch, inconsistent delta caused by path clashes) the execution part of the run is skipped",
     "after a crash the documented manual step break_lock is applied to repository, branch and checkout",
+    "plan file: put_bytes is atomic (old or new content); append/put_na/stream writes may be torn at the crash point; after a crash or a failed write a fresh process must find no plan or the complete plan",
 ]
+ISOLATION = "thread"  # runs are well under a second; all state (stores, scratch tree, caches) is rebuilt per run
 STEP_CAP = 120000
 
 
@@ -86,8 +90,8 @@ _warmed = False
 
 def config(tier):
     if tier == "thorough":
-        return {"budget_s": 600, "run_timeout": 120, "selftest": 12}
-    return {"budget_s": 45, "run_timeout": 120, "selftest": 6}
+        return {"budget_s": 600, "run_timeout": 120, "selftest": 48}
+    return {"budget_s": 45, "run_timeout": 120, "selftest": 16}
 
 
 # -- generation ------------------------------------------------------------------------------
@@ -387,6 +391,11 @@ def execute(sim, plan):
         fail("marshal", "unusual:roundtrip", f"plan with unusual revision ids does not survive marshalling: entries {bad}; last_info {back[0]} vs {info_odd}")
     sim.probe("marshal_roundtrips")
 
+    # -- the plan file under faults -------------------------------------------------------------
+    del wt, branch
+    plan_file_faults(sim, plan, fresh, rb, pa, last_info)
+    wt, branch, repo = fresh()
+
     # -- execution ----------------------------------------------------------------------------
     if plan["exec"] == "transpose" and pt:
         gen_t = lambda which: {k: (v[0][:-2] + suffix[which], tuple((q[:-2] + suffix[which]) if q.endswith(b"'t") else q for q in v[1])) for k, v in pt.items()}  # noqa: E731
@@ -651,3 +660,135 @@ def shrink_candidates(plan):
         p = copy.deepcopy(plan)
         p["exec"] = "simple"
         yield p
+
+
+READ_OPS = ("get", "has", "stat", "list_dir", "readv", "iter_files_recursive", "stream_close", "readlink")
+TEARABLE = ("put_na", "append", "stream_write")
+
+
+def plan_file_faults(sim, plan, fresh, rb, rmap, last_info):
+    """Crash / error points over the storage operations of RebaseState1.write_plan and
+    remove_plan.  A dry pass lists the mutating ops of each; then every op that touches
+    the plan file - and a seeded sample of the others (all of them in the thorough tier)
+    - is hit with: crash before the op, crash after the op, an injected error before the
+    op and, for tearable writes, a torn write followed by a crash.  After each, a fresh
+    process (break_lock) must see NO plan or the COMPLETE plan: has_plan() false, or
+    read_plan() == (last revision info, all N entries in order) - never a parseable part."""
+    import random
+
+    want = (last_info, rmap)
+
+    def observe(fn):
+        ops = []
+
+        def mon(s, actor, phase, op, path, extra):
+            if phase == "before" and op not in READ_OPS:
+                ops.append((op, path))
+
+        sim.monitors.append(mon)
+        sim.arm([])
+        try:
+            fn()
+        finally:
+            sim.monitors.remove(mon)
+        return ops
+
+    def state_now():
+        wt, _branch, _repo = fresh()
+        return wt, rb.RebaseState1(wt)
+
+    def judge(phase, label, fkind):
+        def bad(site, detail):
+            sim.fail("stored_plan", ["stored_plan", fkind, f"{phase}:{site}"], f"[{label}] {detail}")
+
+        try:
+            wt, st = state_now()
+        except Exception as e:  # noqa: BLE001
+            bad(f"checkout-unopenable:{type(e).__name__}", f"the checkout cannot be opened after the fault: {type(e).__name__}: {e}")
+        for obj in (wt.branch, wt):
+            try:
+                obj.break_lock()
+            except Exception as e:  # noqa: BLE001
+                bad("break_lock", f"break_lock failed: {type(e).__name__}: {e}")
+        wt, st = state_now()
+        try:
+            has = st.has_plan()
+            got = st.read_plan() if has else None
+        except Exception as e:  # noqa: BLE001
+            bad(f"unreadable-plan:{type(e).__name__}", f"has_plan/read_plan raised {type(e).__name__}: {e}")
+        if has:
+            if got != want or list(got[1]) != list(rmap):
+                n = len(got[1]) if isinstance(got, tuple) else "?"
+                site = "partial-plan" if isinstance(got, tuple) and got[0] == last_info and all(got[1].get(k) == v for k, v in got[1].items() if k in rmap) and len(got[1]) < len(rmap) else "wrong-plan"
+                bad(site, f"a fresh process finds a plan that is neither absent nor complete: {n} of {len(rmap)} entries, last-revision line {got[0]!r} (expected {last_info!r}); read_plan() raised no error")
+            sim.probe(f"plan_after_{phase}_fault_complete")
+        else:
+            sim.probe(f"plan_after_{phase}_fault_absent")
+        return st
+
+    wt, st = state_now()
+    w_ops = observe(lambda: st.write_plan(rmap))
+    wt, st = state_now()
+    if not st.has_plan() or st.read_plan() != want:
+        sim.fail("stored_plan", ["stored_plan", "none", "write_plan:roundtrip"], f"plan read back through a fresh checkout object differs: {st.read_plan() if st.has_plan() else None} vs {want}")
+    r_ops = observe(st.remove_plan)
+    wt, st = state_now()
+    if st.has_plan():
+        sim.fail("stored_plan", ["stored_plan", "none", "remove_plan:still-there"], "has_plan() is true after remove_plan()")
+    sim.event("plan-file-ops", len(w_ops), len(r_ops))
+    points = []
+    for phase, ops in (("write_plan", w_ops), ("remove_plan", r_ops)):
+        for k, (op, path) in enumerate(ops, 1):
+            onfile = path.endswith("/" + rb.REBASE_PLAN_FILENAME)
+            variants = [("crash", False, None), ("crash", True, None), ("err_before", False, None)]
+            if op in TEARABLE:
+                variants += [("crash", True, 0.0), ("crash", True, 0.5)]
+            for v in variants:
+                points.append((onfile, phase, k, op, v))
+    aimed = [pt for pt in points if pt[0]]
+    rest = [pt for pt in points if not pt[0]]
+    if getattr(sim, "tier", "quick") != "thorough":
+        random.Random(plan["unusual"]).shuffle(rest)
+        rest = rest[:8]
+    chosen = sorted(aimed + rest, key=lambda pt: (pt[1], pt[2], str(pt[4])))
+    for _onfile, phase, k, op, (fkind, applied, torn) in chosen:
+        wt, st = state_now()
+        if phase == "remove_plan":
+            st.write_plan(rmap)
+            wt, st = state_now()
+        fault = {"kind": fkind, "at": k, "count": "mut", "applied": applied, "err": "enospc" if applied is False and k % 2 else "transport"}
+        if torn is not None:
+            fault["torn"] = torn
+        label = f"{phase} op {k} ({op}) {fkind}{'+applied' if applied else ''}{'' if torn is None else f'+torn{torn}'}"
+        sim.arm([fault])
+        crashed = False
+        try:
+            if phase == "write_plan":
+                st.write_plan(rmap)
+            else:
+                st.remove_plan()
+        except SimCrash:
+            crashed = True
+        except Exception as e:  # noqa: BLE001 - the write may fail under an injected error
+            if not sim.faults_fired.get(fkind) or sim.violation is not None:
+                raise
+            sim.event("plan-op-failed", phase, k, type(e).__name__)
+        sim.disarm()
+        if sim.current().dead:
+            crashed = True
+        if crashed:
+            sim.restart_main()
+        sim.notes["evaluations"] = sim.notes.get("evaluations", 1) + 1
+        if onfile_probe(op, _onfile):
+            sim.probe("fault_at_plan_file_op")
+        st = judge(phase, label, fkind)
+        # and the state is usable again: back to 'no plan' for the next point
+        try:
+            st.remove_plan()
+        except Exception as e:  # noqa: BLE001
+            sim.fail("stored_plan", ["stored_plan", fkind, f"{phase}:unusable-afterwards"], f"[{label}] remove_plan after recovery failed: {type(e).__name__}: {e}")
+    sim.probe("plan_file_fault_points", len(chosen))
+
+
+def onfile_probe(op, onfile):
+    return bool(onfile)
